@@ -5,7 +5,7 @@ LEVEL = "proof"
 RULE = ('null scripts (every present scaffold whole, forward, uncut; T floor/ceil; sub-texel scaffolds present or absent; last contig >= 1 texel) unpainted and painted x texel sizes x forward/reverse contigs. Non-trivial = distinct (kind, #scaffolds in map, #absent, texel size).')
 TRUSTED = ['correspondence harness props/C08.py + remap_lib.py: real BuildAssembly pipeline vs Lean `remap` on the projection `proj_full`', 'modelled not verified: Python dict/set/sort semantics as in Model/Py.lean; object identity by object ids; PretextView edit-script model (spec side)']
 ASSUMPTIONS = ["each scaffold's last contig is at least one texel long (the generator enforces it)", 'input scaffold names do not look like <hap>_<x>_<n> in the main stream (separate stream for those)']
-LEVEL_NOTE = 'null-map stages in Lean are partial; decided by full-output correspondence + equality oracle; known finding F14 (painted variant)'
+LEVEL_NOTE = '`unedited_map_reproduces_input` and `painted_map_changes_only_names` proved end to end over the model under the decidable hypothesis `Unedited`/`PaintedOk` (whole-scaffold pieces at any texel rounding, absent sub-texel scaffolds with any gap rows); the F14 case (piece ends before the last contig starts, painted) is outside the hypothesis and is the recorded open finding; tie = full-output correspondence; equality oracle'
 EXPLANATION = 'null-script theorem over the model; tie by full-output correspondence; oracle = equality with the input + zero statistics.'
 PROJ = R.proj_full
 
@@ -30,7 +30,7 @@ def CLASSIFY(c, real, msg):
 def streams(ctx):
     n = 8 if ctx.thorough else 1
     return [("null-unpainted", "null", 400 * n), ("null-painted", "nullp", 250 * n),
-            ("null-bait-ends-before-last-contig", "nulltight", 250 * n), ("null-painted-tight", "nulltightp", 100 * n)]
+            ("null-bait-ends-before-last-contig", "nulltight", 250 * n), ("null-absent-small-scaffolds", "nullabsent", 200 * n), ("null-painted-tight", "nulltightp", 100 * n)]
 
 
 def gen(ctx, kind):
